@@ -78,9 +78,52 @@ func clAllocationsConsumed(c *Ctx) {
 				}
 			}
 		}
+		// and on every path the allocated item is either returned or freed
+		dropped := dfi.PathAvoiding(a, func(x ssa.Instruction) bool {
+			r, isR := x.(*ssa.Return)
+			if !isR || r.Block() == dec.Recover {
+				return false
+			}
+			return strip(dfi.RetVal(r, 0)) != ssa.Value(ac)
+		}, func(x ssa.Instruction) bool {
+			return p.IsCall(x, freeItem) && strip(callOf(x).Args[1]) == ssa.Value(ac)
+		})
+		c.Check(dropped == nil, dec, a, "item allocated by DecodeItem is returned or freed on every path", "an allocated item is neither handed to the caller nor freed (a failed payload read leaks its block)")
 		c.Check(!leak, dec, a, "item allocated by DecodeItem is not handed out together with a read error",
 			"when the payload read fails DecodeItem returns the allocated item AND the error; ReadItem's callers drop the item on error, so a truncated backup leaks one block per failing shard")
 	}
+}
+
+// freeItem hands the block to the configured free function whenever memory is user managed.
+func clFreeItemFrees(c *Ctx) {
+	p := c.P
+	fn := p.Func("nitro", "Nitro", "freeItem")
+	fi := p.Info(fn)
+	fFree := p.Field("nitro", "Config", "freeFun")
+	fUse := p.Field("nitro", "Config", "useMemoryMgmt")
+	var call ssa.Instruction
+	for _, in := range fi.Instrs {
+		cc := callOf(in)
+		if cc != nil && cc.StaticCallee() == nil && !cc.IsInvoke() && lastField(cc.Value) == fFree && len(cc.Args) == 1 && strip(cc.Args[0]) == strip(fn.Params[1]) {
+			call = in
+		}
+	}
+	if !c.Check(call != nil, fn, nil, "freeItem returns the item's block to the configured allocator", "items are never returned to the allocator") {
+		return
+	}
+	// skipped only when memory is not user managed
+	skip := fi.PathAvoidingEdges(nil, isReturn, func(x ssa.Instruction) bool { return x == call }, func(pb, sb *ssa.BasicBlock) bool {
+		if len(pb.Instrs) == 0 {
+			return false
+		}
+		ifi, ok := pb.Instrs[len(pb.Instrs)-1].(*ssa.If)
+		if !ok || len(pb.Succs) != 2 {
+			return false
+		}
+		f := normFact(ifi.Cond, pb.Succs[0] == sb)
+		return loadsField(fUse)(f.V) && !f.Val
+	})
+	c.Check(skip == nil, fn, call, "freeItem skips the free only when memory is not user managed", "some items are silently not freed")
 }
 
 // C07.b: overwriting the owning field Nitro.store releases what it owned;
@@ -167,6 +210,7 @@ func clStoreOwnership(c *Ctx) {
 
 // C07.e rejected operations free immediately = pairing clauses
 func clRejectedFree(c *Ctx) {
+	clFreeItemFrees(c)
 	clPut2Pairing(c)
 	clDeltaRestoreFrees(c)
 }
